@@ -35,7 +35,8 @@ TRUSTED = [
 ASSUMPTIONS = [
     "interaction records have distinct (user, item) pairs (the default interaction class of a dataset without repeats)",
     "hold-out sizes are >= 0 and fractions are in [0, 1] for the exact-count theorems (other values are modelled and compared, not claimed)",
-    "in-Coq correspondence only for datasets built from an interaction frame (every user has a row); datasets with declared entity tables "
+    "in-Coq correspondence for datasets built from an interaction frame and for small datasets assembled in chunks (users without rows, "
+    "vocabularies not in id order: the model takes the stored record and user order from the dataset); datasets with huge declared entity tables "
     "(thousands of users without rows, user x item grid beyond 2^31 / 2^32) are checked by the oracle only - the model and theorems do not "
     "mention entity numbers",
     "naive date-times / ISO text as cut-offs for an integer-second column are interpreted in the process zone (outside the property's quantifier; run under UTC only)",
@@ -45,7 +46,10 @@ RULE = ("structured generator: 1-6 users with 1-6 rows each (many single-row use
         "0..n+1, repeats None/0..4, disjoint or not, oversized requests taking the cross-fold fallback, test_only), four hold-out rules with sizes 0-5 "
         "and fractions 0..1 (malformed stream: negative / >1 / missing ordering field / no time column), temporal cut-offs as int, float, datetime and "
         "ISO text, single or sequence, with and without `end`; a few datasets with declared entity tables whose user x item grid exceeds 2^31 / 2^32 "
-        "(records on cells 2^31 / 2^32 apart in row- and column-major order and on adjacent cells; users without rows); a few batches re-run in other time zones in separate processes.  non-trivial = no "
+        "(records on cells 2^31 / 2^32 apart in row- and column-major order and on adjacent cells; users without rows); datasets assembled "
+        "incrementally through DatasetBuilder (1-4 interaction chunks by user / by item / arbitrary rows in any order, unknown entities inserted on the "
+        "fly or declared by add_entities, entities without rows declared at the start / in between / at the end, re-declarations; mostly contiguous "
+        "integer or string ids, so vocabularies are dense but stored in arrival order) for every splitter; a few batches re-run in other time zones in separate processes.  non-trivial = no "
         "error, at least 2 records, and some pair with a non-empty test side and a non-empty (or test-only) training side; distinct = hash of the case")
 
 ZONES = ["America/New_York", "Asia/Tokyo", "Pacific/Chatham", "Europe/London"]
@@ -93,6 +97,111 @@ def gen_data(rng, tcol=None, epoch=False):
     return {"rows": rng.shuffle(rows), "tcol": tcol, "ids": rng.weighted([("int", 4), ("str", 1)])}
 
 
+def _split_groups(rng, xs, nb):
+    """xs in a random order cut into nb non-empty consecutive groups (fewer when xs is short)"""
+    xs = rng.shuffle(list(xs))
+    nb = max(1, min(nb, len(xs)))
+    cuts = sorted(rng.sample(list(range(1, len(xs))), nb - 1)) if nb > 1 else []
+    return [xs[a:b] for a, b in zip([0] + cuts, cuts + [len(xs)])]
+
+
+def gen_batched_data(rng, tcol=None, epoch=False):
+    """A dataset assembled incrementally through DatasetBuilder: interaction chunks (by user, by item or arbitrary
+    rows, in any order) whose unknown entities are inserted on the fly or declared by add_entities just before,
+    plus entities without rows declared at the start, in between or at the end.  Identifier sets are mostly
+    contiguous ranges, so the vocabularies are dense but stored in arrival order, not in id order."""
+    nu = rng.weighted([(2, 2), (3, 3), (4, 3), (5, 3), (6, 2), (8, 1)])
+    ni = rng.randint(2, 6)
+    xu = rng.weighted([(0, 3), (1, 2), (2, 2), (4, 1)])      # users without rows
+    xi = rng.weighted([(0, 4), (1, 1), (3, 1)])              # items without rows
+    dense = rng.chance(4, 5)
+
+    def universe(n):
+        if dense:
+            b = rng.choice([0, 1, 1, 2, 7, 100])
+            return list(range(b, b + n))
+        return sorted(rng.sample(list(range(0, 60)), n))
+
+    uu = rng.shuffle(universe(nu + xu))
+    ii = rng.shuffle(universe(ni + xi))
+    users, extra_u = uu[:nu], uu[nu:]
+    items, extra_i = ii[:ni], ii[ni:]
+    if tcol is None:
+        tcol = rng.weighted([("int", 11), ("ts", 7), ("none", 1)])
+    epoch = epoch or (tcol == "ts") or rng.chance(1, 6)
+    rows = []
+    for u in users:
+        cnt = min(ni, rng.weighted([(1, 3), (2, 3), (3, 2), (4, 1), (5, 1), (6, 1)]))
+        for i in rng.sample(items, cnt):
+            k = rng.randint(0, 8)
+            if tcol == "none":
+                t = 0
+            elif not epoch:
+                t = k
+            else:
+                t = BASE + k * 9 * 3600
+                if tcol == "ts":
+                    t = t * 10**9 + (500_000_000 if rng.chance(1, 5) else 0)
+            rows.append([u, i, rng.randint(2, 20), t])
+    rows = rng.shuffle(rows)
+    # ---- the chunks ---------------------------------------------------------------------------
+    nb = rng.weighted([(1, 1), (2, 4), (3, 3), (4, 1)])
+    how = rng.weighted([("by-user", 5), ("by-item", 2), ("rows", 2)])
+    if how == "by-user":
+        chunks = [[[r[0], r[1]] for r in rows if r[0] in g] for g in _split_groups(rng, users, nb)]
+    elif how == "by-item":
+        chunks = [[[r[0], r[1]] for r in rows if r[1] in g] for g in _split_groups(rng, items, nb)]
+    else:
+        chunks = [[[r[0], r[1]] for r in g] for g in _split_groups(rng, rows, nb)]
+    chunks = [c for c in chunks if c]
+    steps, known_u, known_i = [], set(), set()
+
+    def declare(cls, ids, known):
+        ids = list(ids)
+        dup = False
+        if known and rng.chance(1, 5):                  # re-declares known entities too (duplicates="update")
+            ids += rng.sample(sorted(known), rng.randint(1, min(2, len(known))))
+            dup = True
+        steps.append({"op": cls, "ids": rng.shuffle(ids), "dup": dup})
+        known.update(ids)
+
+    pend_u = _split_groups(rng, extra_u, rng.randint(1, 2)) if extra_u else []
+    pend_i = [extra_i] if extra_i else []
+    upfront = rng.chance(1, 6)                          # everything declared first, in several declarations
+    if upfront:
+        for g in _split_groups(rng, users + extra_u, rng.randint(2, 3)):
+            declare("user", g, known_u)
+        for g in _split_groups(rng, items + extra_i, rng.randint(1, 3)):
+            declare("item", g, known_i)
+        pend_u, pend_i = [], []
+    for c in chunks:
+        while pend_u and rng.chance(1, 3):
+            declare("user", pend_u.pop(), known_u)
+        while pend_i and rng.chance(1, 3):
+            declare("item", pend_i.pop(), known_i)
+        cu = {p[0] for p in c} - known_u
+        ci = {p[1] for p in c} - known_i
+        missing = "insert"
+        if not (cu or ci):
+            missing = rng.choice(["error", "insert"])
+        elif rng.chance(1, 3):
+            if cu:
+                declare("user", sorted(cu), known_u)
+            if ci:
+                declare("item", sorted(ci), known_i)
+            missing = rng.choice(["error", "insert"])
+        elif rng.chance(1, 4) and cu:
+            declare("user", sorted(cu), known_u)        # users declared, items inserted on the fly
+        steps.append({"op": "interactions", "pairs": c, "missing": missing})
+        known_u.update(p[0] for p in c)
+        known_i.update(p[1] for p in c)
+    while pend_u:
+        declare("user", pend_u.pop(), known_u)
+    while pend_i:
+        declare("item", pend_i.pop(), known_i)
+    return {"rows": rows, "tcol": tcol, "ids": rng.weighted([("int", 3), ("str", 2)]), "build": steps}
+
+
 def gen_holdout(rng, malformed):
     kind = rng.choice(["SampleN", "SampleFrac", "LastN", "LastFrac"])
     h = {"kind": kind}
@@ -129,7 +238,7 @@ def gen_cut(rng, data, wall_ok):
 
 def gen_call(rng, kind, data, malformed, utc=True):
     n = len(data["rows"])
-    nu = len({r[0] for r in data["rows"]})
+    nu = len(_all_users(data))
     if kind == "records":
         if rng.chance(1, 2):
             k = rng.weighted([(0, 1 if malformed else 0), (1, 2), (2, 4), (3, 4), (n, 2), (n + 2, 1), (rng.randint(1, n + 1), 4)])
@@ -160,14 +269,16 @@ def gen_call(rng, kind, data, malformed, utc=True):
             "end": gen_cut(rng, data, wall_ok) if rng.chance(2, 5) else None}
 
 
-def gen_case(rng, malformed=False, kind=None, utc=True):
+def gen_case(rng, malformed=False, kind=None, utc=True, batched=False):
+    if batched:
+        kind = kind or rng.weighted([("records", 8), ("users", 8), ("time", 3), ("filter", 1)])
     kind = kind or rng.weighted([("records", 6), ("users", 10), ("time", 5), ("filter", 1)])
     tcol = None
     if kind in ("time", "filter"):
         tcol = rng.weighted([("int", 5), ("ts", 5), ("none", 1 if malformed else 0)])
-    data = gen_data(rng, tcol, epoch=not utc)
+    data = gen_batched_data(rng, tcol, epoch=not utc) if batched else gen_data(rng, tcol, epoch=not utc)
     return {"kind": kind, "data": data, "call": gen_call(rng, kind, data, malformed, utc), "seed": rng.randint(0, 2**31 - 1),
-            "style": kind + ("/malformed" if malformed else "")}
+            "style": ("batched/" if batched else "") + kind + ("/malformed" if malformed else "")}
 
 
 # (users, items) of the declared entity tables: the user x item grid exceeds 2**32, or lies between 2**31 and 2**32
@@ -239,6 +350,8 @@ def gen_cases(rng, tier):
         out.append(gen_case(rng.fork(k), malformed=(k % 7 == 6)))
     for k in range(5 if tier == "quick" else 40):
         out.append(gen_big_case(rng.fork(f"space{k}")))
+    for k in range(160 if tier == "quick" else 1200):
+        out.append(gen_case(rng.fork(f"batched{k}"), malformed=(k % 9 == 8), batched=True))
     nz = 4 if tier == "quick" else 8
     per = 10 if tier == "quick" else 20
     for z in range(nz):
@@ -356,6 +469,8 @@ def coq_term(case, obs):
         # thousands of users: positions are unary `nat`s in the model, so these cases are left to the oracle
         # (the theorems do not mention entity numbers at all; they cover these datasets as any other)
         return None
+    if obs.get("build_error"):
+        return "false"
     try:
         return _term(case, obs)
     except Unrepresentable:
@@ -456,6 +571,7 @@ def _holdout_error(h, ln, data):
     """error a hold-out must raise on a row of that length (None: no error)"""
     k = h["kind"]
     missing = k in ("LastN", "LastFrac") and (h["field"] not in ("timestamp", "rating") or (h["field"] == "timestamp" and data["tcol"] == "none"))
+    missing = missing or ln == 0      # the empty list of a user without rows has no fields (matters for a negative size only)
     if k == "SampleN":
         return 1 if h["n"] < 0 else None
     if k == "SampleFrac":
@@ -469,7 +585,11 @@ def _holdout_error(h, ln, data):
 def _all_users(data):
     if data.get("space"):
         return list(range(1, data["space"]["users"] + 1))
-    return sorted({r[0] for r in data["rows"]})
+    us = {r[0] for r in data["rows"]}
+    for st in data.get("build") or []:
+        if st["op"] == "user":
+            us.update(st["ids"])
+    return sorted(us)
 
 
 def _expected_error(case, rows):
@@ -535,8 +655,12 @@ def oracle(case, obs):
     data, call = case["data"], case["call"]
     fn = call["fn"]
     rows = _srt(data["rows"])
+    if obs.get("build_error"):
+        return [("dataset-build", f"assembling the dataset from valid chunks and entity declarations raised {obs.get('msg')}")]
     if _srt(obs["recs"]) != rows:
         return [("dataset-build", "the dataset does not store exactly the records it was built from")]
+    if sorted(obs["users"]) != _all_users(data):
+        return [("dataset-build", "the dataset's users are not exactly the users it was built from")]
     exp = _expected_error(case, rows)
     if obs["error"]:
         if exp is None:
@@ -717,11 +841,22 @@ def counters(case, obs):
     yield "style=" + case["style"]
     yield "tcol=" + data["tcol"]
     yield "ids=" + data["ids"]
+    if data.get("build"):
+        st = data["build"]
+        yield f"build=chunks:{sum(1 for x in st if x['op'] == 'interactions')}/declarations:{min(4, sum(1 for x in st if x['op'] != 'interactions'))}"
+        us = obs.get("users") or []
+        if len(us) > 1:
+            dense = max(us) - min(us) == len(us) - 1
+            yield "stored-user-order=" + ("dense" if dense else "sparse") + ("/sorted" if us == sorted(us) else "/unsorted")
+        if any(x["op"] == "interactions" and x["missing"] == "error" for x in st):
+            yield "build/chunk-with-missing=error"
+        if any(x.get("dup") for x in st):
+            yield "build/re-declared-entities"
     if data.get("space"):
         g = data["space"]["users"] * data["space"]["items"]
         yield "id-space=" + (">2^32" if g > 2**32 else ">2^31" if g > 2**31 else "small")
     yield f"error={obs['error']}"
-    lens = Counter({u: 0 for u in _all_users(data)}) if data.get("space") else Counter()
+    lens = Counter({u: 0 for u in _all_users(data)}) if (data.get("space") or data.get("build")) else Counter()
     lens.update(r[0] for r in data["rows"])
     if 0 in lens.values():
         yield "has-user-without-rows"
@@ -770,12 +905,20 @@ def sample(case, obs):
     return {"case": case, "observation": {"error": obs["error"], "folds": [{k: f[k][:40] for k in ("train", "test", "keys")} for f in obs["folds"][:3]]}}
 
 
+_SHRINKS = [0]      # oracle keys shrunk so far in this run (capped: every trial re-runs the splitter)
+
+
 def shrink(case, fails):
+    _SHRINKS[0] += 1
+    if _SHRINKS[0] > 5:
+        return case
     if case["kind"] == "tz":
         subs = common.shrink_list(case["sub"], lambda xs: bool(xs) and fails({**case, "sub": xs}), 12)
         return {**case, "sub": subs}
     c = dict(case)
     steps = 10 if case["data"].get("space") else 60      # a run over a large identifier space takes seconds
+    # (the chunks and declarations of an incrementally assembled dataset refer to rows by their (user, item) pair,
+    # so removing rows keeps the build plan meaningful; a chunk left without rows is skipped)
     rows = common.shrink_list(case["data"]["rows"], lambda xs: bool(xs) and fails({**c, "data": {**case["data"], "rows": xs}}), steps)
     c["data"] = {**case["data"], "rows": rows}
     return c
